@@ -75,6 +75,16 @@ CHECKS["C09"] = dict(level="model_checking", engine="E1", ref="5/C09",
    technique="explicit-state BFS to fixpoint over the real prefix-delegation handler; per-transition oracle on renewals/repeats against the ghost of what each client was told",
    text="Same graph as C08; on every transition from a state where the client holds prefixes: an IA_PD naming exactly a held prefix must return it, a hint-less IA_PD must return the held prefixes and nothing new, such repeats must not change the number of allocated blocks, lifetimes must not shrink (one-sided clock comparison), and every prefix delegated in a reply must be in the server's record for that client.",
    note=PD_NOTE)
+
+LEASE_NOTE = "Real sqlite on a private tmpfs directory; instance state read through hook H3 for the state key and for restored bindings; replies are the handler's return values. sqlite's own torn-write recovery and I/O errors are outside the model."
+CHECKS["C02"] = dict(level="model_checking", engine="E1", ref="5/C02",
+   technique="explicit-state BFS to fixpoint over the real range plugin + sqlite (transitions = DISCOVER/REQUEST per client, RESTART with same/other lease time), ghost of first address per client as oracle; linear exhaustion sweeps",
+   text="Complete reachable state graph for N+1 clients on ranges of N in {2,3} (thorough: 4, plus pre-filled 65-address and end-of-address-space ranges across a bitmap word boundary): on every transition the reply must be in range, equal to the address first given to that client, not bound to any other client, carry the configured lease time, be withheld only when all addresses are bound and the client is unknown; every restart on the plugin's own database must succeed and preserve records and bitmap. Sweeps fill ranges of 2..257 addresses (incl. 63/64/65, ending at 255.255.255.255) to exhaustion with a restart.",
+   note=LEASE_NOTE + " Concurrent schedules are covered by the scheduler-based part (see C16).")
+CHECKS["C03"] = dict(level="fault_enumeration", engine="E1+crash images", ref="5/C03",
+   technique="crash-point enumeration: the lease database is copied at every state of the explicit-state graph (and in sweeps over chaddr lengths 0..16 and hostile hostnames) and the real plugin is started on each image",
+   text="Every state reached by the C02 graph is a crash point: the sqlite file as it is on disk is copied and the real setupRange runs on the copy; it must succeed and restore exactly the client-to-address bindings replied so far (none lost, changed, duplicated or invented; allocator marks = bindings; one row per client), with a stored expiry not earlier than the end of the lease last promised (1 s resolution, one-sided clock comparison). Sweeps: chaddr lengths 0..16 plus numeric-looking one-byte addresses, 12 hostnames (numeric-looking, NUL, 0xff, quotes, 255 bytes), each followed by a restart.",
+   note=LEASE_NOTE)
 ALL = ["C%02d" % i for i in range(1, 21)]
 NA_REASON = "check not built yet in this session (planned, see DESIGN.md section 5); will be claimed once its machinery exists"
 m = {
@@ -88,7 +98,7 @@ m = {
   "add_only": True,
  },
  "engines": [
-  {"name": "E1 explicit-state BFS over real handlers", "path": "mc/explore", "serves_properties": ["C04","C05","C06","C07","C08","C09","C10"], "kind_free_text": "explicit-state model checking where every transition is an execution of the real code on a fresh instance (replay of the shortest path + 1 op); state key = hook dump + observer ghost"},
+  {"name": "E1 explicit-state BFS over real handlers", "path": "mc/explore", "serves_properties": ["C02","C03","C04","C05","C06","C07","C08","C09","C10"], "kind_free_text": "explicit-state model checking where every transition is an execution of the real code on a fresh instance (replay of the shortest path + 1 op); state key = hook dump + observer ghost"},
   {"name": "E2 cooperative scheduler + preemption-bounded DFS", "path": "mc/sched + mc/verifsched + mc/cmd/instr", "serves_properties": [], "kind_free_text": "stateless model checking of the implementation: sync replaced by a shim through go build -overlay, Yield() injected before every statement, all schedules up to a preemption bound"},
   {"name": "E3 bounded-exhaustive enumerator vs reference model", "path": "mc/checks/*", "serves_properties": ["C10","C11","C12","C13","C14","C15","C17","C18","C19","C20"], "kind_free_text": "complete cross product of small per-dimension alphabets executed on the real code and compared with a reference written from the property text"},
  ],
